@@ -18,7 +18,9 @@ from lib.proggen import ProgGen
 from lib.props.c08 import STRUCT
 
 NEVER = ["re:" + hx(p) for p in ["@@never", "ZZZ\\d+", "\\x00", "QQ(\\d+)Q", "(?:zz)+zz!", "Z*", "(QQ)?", "\\b", "^", "(?:)"]] + ["spnever:0", "spnever:1", "spnever:3", "spnever:40", "spzero"]
-IDENT = ["hooks", "rewr", "hooks,rewr"]
+IDENT = ["hooks", "rewr", "hooks,rewr", "hooks2", "hooks2,rewr"]
+SCOPES = ["x=5; &a=x+1; a", "x=5; &a=x+d1; a + a", "func f(q){ q + x }; x = 3; f(2) + x", "x=2; &a = x*2; &b = a + x; b + a", "x=1; func g(){ &c = x + 1; c + x }; g()",
+          "y = 4; func f(){ func g(){ y + 1 }; g() + y }; f()", "&a = abs(0-3) + 1; a", "x = [1,2]; &a = x[0] + x.len(); a"]
 
 
 def strip_calls(o):
@@ -35,6 +37,9 @@ def main(tier):
         progs = []
         for s in STRUCT:
             progs.append((s, "wcfd"))
+        for s in SCOPES:
+            for _ in range(3):
+                progs.append((s, "-"))
         for _ in range(2500 if tier == "thorough" else 500):
             g = ProgGen(r, illtyped=0.05)
             src, c2 = g.program()
@@ -53,7 +58,7 @@ def main(tier):
         for (src, cfg), spec, a, b in zip(progs, specs, o0, oX):
             st["cases"] += 1
             run.evaluations += 1
-            run.count("transparent." + ("hooks" if "hooks" in spec or "rewr" in spec else "parsers"))
+            run.count("transparent." + ("hooks2" if "hooks2" in spec else "hooks" if "hooks" in spec or "rewr" in spec else "parsers"))
             a2, b2 = strip_calls(a), strip_calls(b)
             # a dict printed inside the process text follows Go's map order: compare everything but that text then
             md = re.search(r" d=(\S+)", a2)
@@ -100,6 +105,39 @@ def main(tier):
             else:
                 run.nontriv(("act", src))
                 run.count("acting.calls", len(calls))
+        # ---------- (2b) the same with a host-supplied STREAM parser that leaves Groups[0] blank: the VM fills in the matched text
+        acting2 = []
+        for tpl in ctx_templates:
+            n = r.randint(0, 999)
+            acting2.append((tpl.replace("{T}", f"#{n}"), tpl, n))
+        out2 = go_child(line_timeout=20).run([f"custom -,L30000 {1:032x} sphash,spnever:3 {hx(src)}" for src, tpl, n in acting2])
+        for (src, tpl, n), o in zip(acting2, out2):
+            run.evaluations += 1
+            run.count("acting-stream.cases")
+            rep = {"source": src, "registered": "stream parser '#' digits (Groups[0] left blank, Groups[1] = digits, payload = digits)", "implementation": o[:500]}
+            if not o.startswith("ok "):
+                run.count("acting-stream.error")
+                plain = go_child().run([f"custom -,L30000 {1:032x} - {hx(tpl.replace('{T}', '7'))}"])[0]
+                if plain.startswith("ok "):
+                    run.violation("custom-term-not-accepted-as-operand", dict(rep, with_number_instead=plain[:200]))
+                continue
+            m = re.search(r" calls=(\S+)", o)
+            calls = unhx(m.group(1)).decode("utf-8", "replace").split("\x1e") if m and m.group(1) != "-" else []
+            rr = re.search(r" rerun=(\S+)", o)
+            bad = [c for c in calls if c != f"sphash|#{n}\x1f{n}|{n}"]
+            md = re.search(r" d=(\S+)", o)
+            dtext = unhx(md.group(1)).decode("utf-8", "replace") if md and md.group(1) != "-" else ""
+            if bad:
+                run.violation("handler-received-wrong-text-or-groups", dict(rep, calls=calls, expected_each=f"sphash|#{n}\x1f{n}|{n}"))
+            elif not calls and "st" not in tpl and "0 &&" not in tpl and "1 ||" not in tpl and "0 ? 1" not in tpl.replace("0 ? 1 : {T}", ""):
+                run.violation("handler-never-ran-for-a-matching-term", dict(rep))
+            elif rr and rr.group(1) != "err" and int(rr.group(1)) != len(calls):
+                run.violation("handler-count-differs-between-evaluations", dict(rep, first=len(calls), second=rr.group(1)))
+            elif calls and tpl in ("{T}+1", "1+{T}", "({T})+1", "{T}*{T}", "-{T}") and f"[#{n}=#{n}]" not in dtext:
+                run.violation("process-text-lost-the-matched-text", dict(rep, process_text=dtext))
+            else:
+                run.nontriv(("act2", src))
+                run.count("acting-stream.calls", len(calls))
         # ---------- (3) the returned value is used by copy: a handler that reuses and mutates one result object
         shared = [("E1+E1", "i3", "1[E1=E1]+2[E1=E1]"), ("[E1,E1,E1]", "[i1 i2 i3]", None), ("x=E1; y=E1; x*10+y", "i12", None), ("E1; E1", "i2", None),
                   ("&cv=E1; cv*100+cv", "i102", None)]
